@@ -320,6 +320,62 @@ def check_lambda(case, ev=None, scratch=None):
             scratch.clean()
 
 
+# ---- a module that is first imported inside a function body ---------------------------------------------
+
+LAZY_FILES = {
+    "pk/__init__.py": "",
+    "pk/m0.py": "import dds\nimport vlog\n\n\n@dds.data_function('/lz/out')\ndef f():\n    vlog.rec('f')\n    import lzmod{n}\n    return ('f', lzmod{n}.g())\n",
+}
+LAZY_MOD = "import vlog\n\nLZ = {lz}\n\n\ndef g():\n    vlog.rec('g')\n    return ('g', {ver}, LZ)\n"
+
+
+def _preimport(name):
+    import importlib
+
+    importlib.import_module(name)
+    return True
+
+
+def check_lazy_import(case, ev=None, scratch=None):
+    """the signature must not depend on whether a lazily imported accepted module is already loaded"""
+    from ..harness import proc
+
+    own = scratch is None
+    scratch = scratch or common.Scratch("vf-c03")
+    try:
+        root = scratch.sub()
+        n = case["n"]
+        files = {k: v.format(n=n) for k, v in LAZY_FILES.items()}
+        files[f"lzmod{n}.py"] = LAZY_MOD.format(lz=case["lz"], ver=case["ver"])
+        for rel, content in files.items():
+            pth = os.path.join(root, rel)
+            os.makedirs(os.path.dirname(pth), exist_ok=True)
+            open(pth, "w").write(content)
+        sigs = {}
+        for variant in ("fresh", "preimported"):
+            w = proc.Worker()
+            try:
+                w.call("init", root=root, accepted=["pk", f"lzmod{n}"], store={"kind": "memory"})
+                if variant == "preimported":
+                    w.call("call", module="vf.props.c03", func="_preimport", args=[f"lzmod{n}"])
+                for k in range(case["evals"]):
+                    r = w.call("eval", module="pk.m0", func="f", style="direct")
+                    if r["exc"] is not None:
+                        raise Violation(f"lazy import ({variant}, evaluation {k}) raised {r['exc']['type']}: {r['exc']['msg'][:300]}", case)
+                    if r["value"] != ("f", ("g", case["ver"], case["lz"])):
+                        raise Violation(f"lazy import ({variant}, evaluation {k}) returned {r['value']!r}", case)
+                    sigs[(variant, k)] = r["sigs"].get("/lz/out")
+            finally:
+                w.close()
+        if len(set(sigs.values())) != 1:
+            raise Violation(f"the signature of a function that imports an accepted module inside its body depends on the interpreter's import state: { {k: str(v)[:10] for k, v in sigs.items()} }", case)
+        if ev is not None:
+            ev.case(case, True, features=["lazy-import"])
+    finally:
+        if own:
+            scratch.clean()
+
+
 def shard(idx, n, tier, seed, count):
     ev = Ev()
     scratch = common.Scratch("vf-c03")
@@ -328,6 +384,11 @@ def shard(idx, n, tier, seed, count):
         v = common.hyp_drive(case_strategy(opts), lambda c: check_case(c, ev, scratch), seed * 1000 + 300 + idx, count, ev)
         if v is None:
             v = common.hyp_drive(lambda_strategy(), lambda c: check_lambda(c, ev, scratch), seed * 1000 + 350 + idx, max(3, count // 2), ev)
+        if v is None and idx < 4:
+            from hypothesis import strategies as st
+
+            lz = st.fixed_dictionaries({"lazy": st.just(True), "n": st.integers(0, 3), "lz": st.integers(0, 5), "ver": st.integers(0, 2), "evals": st.integers(2, 3)})
+            v = common.hyp_drive(lz, lambda c: check_lazy_import(c, ev, scratch), seed * 1000 + 380 + idx, 3, ev)
     finally:
         scratch.clean()
     return ev, v
@@ -343,7 +404,9 @@ def run(tier, seed, scale=1.0):
 
 
 def replay(case):
-    if case.get("lam"):
+    if case.get("lazy"):
+        check_lazy_import(case)
+    elif case.get("lam"):
         check_lambda(case)
     elif "value_hash" in case:
         v = [x for x in check_value_hashes(Ev()) if x.case.get("value_hash") == case["value_hash"]]
